@@ -161,7 +161,8 @@ class Ctx:
                     shutil.copy(src, dst)
         open(os.path.join(d, name + ".cfg"), "w").write(cfg)
         env = dict(os.environ)
-        jto = []
+        os.makedirs(os.path.join(d, "jtmp"), exist_ok=True)
+        jto = ["-Djava.io.tmpdir=" + os.path.join(d, "jtmp")]     # TLC leaves an empty tlc-<n> directory there per run
         if deque:
             jto.append("-Dtlc2.tool.queue.IStateQueue=StateDeque")
         if xss:
